@@ -5,50 +5,118 @@ From Jen Require Import Base.Bytes GoStd.Quote GoStd.Skeleton.
 From Jen Require Import Model.Code Model.Naming Model.Render Model.FileRender.
 From Jen Require Import Proofs.CommentProofs Proofs.ImportsProofs Proofs.AdjacencyProofs.
 
-(* The domain [preamble_domain]: a text is
+(* ---- what renderImports does to a preamble block before writing it ----
+   [trim_raw_preamble] (Model/FileRender.v) mirrors
+       if strings.HasPrefix(c, "//") || strings.HasPrefix(c, "/*") { c = strings.TrimRight(c, "\n") }
+   [is_raw_comment] is the test of Comment.render ([comment_text]): such a text is written
+   verbatim. *)
+
+(* Trimming twice is trimming once. *)
+Theorem C19_trim_idempotent : forall t,
+  trim_raw_preamble (trim_raw_preamble t) = trim_raw_preamble t.
+Proof. exact trim_raw_idempotent. Qed.
+
+(* The trimmed form of a raw text does not end in a newline (said with the model's own
+   suffix test and as a statement about lists). *)
+Theorem C19_trim_raw_no_trailing_newline : forall t, is_raw_comment t = true ->
+  has_suffix [x0a] (trim_raw_preamble t) = false /\ forall u, trim_raw_preamble t <> u ++ [x0a].
+Proof. exact trim_raw_no_trailing_newline. Qed.
+
+(* A text that is not raw, and a raw text that does not end in a newline, are left alone. *)
+Theorem C19_trim_identity : forall t,
+  is_raw_comment t = false \/ has_suffix [x0a] t = false -> trim_raw_preamble t = t.
+Proof. exact trim_raw_identity. Qed.
+
+(* The result is a prefix of the text, and what is removed is a run of newlines, nothing else. *)
+Theorem C19_trim_removes_newlines_only : forall t,
+  exists n, t = trim_raw_preamble t ++ repeat x0a n.
+Proof. exact trim_raw_prefix. Qed.
+
+(* Together: for a raw text, the result is THE u with t = u ++ newlines and u not ending in a
+   newline (strings.TrimRight(t, "\n")). *)
+Theorem C19_trim_is_TrimRight : forall t u n, is_raw_comment t = true ->
+  t = u ++ repeat x0a n -> has_suffix [x0a] u = false -> trim_raw_preamble t = u.
+Proof. exact trim_raw_unique. Qed.
+
+(* Trimming does not change whether the text is raw, and the trimmed raw text is what is
+   written. *)
+Theorem C19_trim_keeps_form : forall t,
+  is_raw_comment (trim_raw_preamble t) = is_raw_comment t /\
+  (is_raw_comment t = true -> comment_text (trim_raw_preamble t) = trim_raw_preamble t).
+Proof. intros t. split; [apply is_raw_trim | apply trimmed_raw_verbatim]. Qed.
+
+(* ---- adjacency ----
+   The domain [preamble_domain]: a text is
      - in the comment domain [in_domain] of CommentProofs.v (it does not start with `//` or
        `/*` and does not contain `*/`): rendered as `// t` when it has no newline and as
        `/*\n t \n*/` when it has one - INCLUDING a one-line text that ends in a newline; or
-     - a raw line comment [raw_line]: `//` followed by bytes without a newline; or
-     - a raw block comment [raw_block]: `/*` b `*/` with no `*/` inside b.
+     - a raw line comment [raw_line]: `//` followed by bytes without a newline
+       ([line_form]), followed by ANY NUMBER OF NEWLINES (its only newlines are trailing
+       ones); or
+     - a raw block comment [raw_block]: `/*` b `*/` with no `*/` inside b ([block_form]),
+       followed by any number of newlines.
    Then, for a non-empty preamble c0 :: cs and whatever code [acc] is pending, the lexer run
-   over [preamble_block] from code state yields exactly: the pending code; the comment of c0;
-   for each further text ONE newline (a code region holding just that byte) and its comment,
-   in the order given; ONE newline and `import ` (one code region); the string "C"; and it
-   ends in code with the two final newlines pending.  No blank line and no other token stands
-   between the comments or between the last comment and the import: the comment group is
-   adjacent to the import declaration, which is what cgo requires. *)
+   over [preamble_block] from code state yields exactly: the pending code; the comment of c0
+   (a raw text without its trailing newlines); for each further text ONE newline (a code
+   region holding just that byte) and its comment, in the order given; ONE newline and
+   `import ` (one code region); the string "C"; and it ends in code with the two final
+   newlines pending.  No blank line and no other token stands between the comments or between
+   the last comment and the import: the comment group is adjacent to the import declaration,
+   which is what cgo requires. *)
 Theorem C19_preamble_is_doc : forall c0 cs acc,
   Forall preamble_domain (c0 :: cs) ->
   lex_run MCode acc (preamble_block (c0 :: cs))
-  = (flush KCode acc ++ (preamble_kind c0, comment_text c0) :: following_regions cs ++
+  = (flush KCode acc ++ (preamble_kind c0, comment_text (trim_raw_preamble c0)) :: following_regions cs ++
      [(KCode, x0a :: S "import "); (KStr, [c_dq] ++ S "C" ++ [c_dq])],
      MCode, [x0a; x0a]).
 Proof. exact preamble_is_doc. Qed.
 
+(* The raw members of the domain, spelled out: what is written for them is the verbatim
+   form without the newlines, as one line / one block comment. *)
+Theorem C19_raw_line_written : forall r n, contains_byte x0a r = false ->
+  let t := S "//" ++ r ++ repeat x0a n in
+  preamble_domain t /\ comment_text (trim_raw_preamble t) = S "//" ++ r /\ preamble_kind t = KLine.
+Proof. exact raw_line_written. Qed.
+
+Theorem C19_raw_block_written : forall b n, contains (S "*/") b = false ->
+  let t := S "/*" ++ b ++ S "*/" ++ repeat x0a n in
+  preamble_domain t /\ comment_text (trim_raw_preamble t) = S "/*" ++ b ++ S "*/" /\ preamble_kind t = KBlock.
+Proof. exact raw_block_written. Qed.
+
 (* A one-line text ending in a newline is in the domain: jennifer renders it in block style
-   (`/*`, newline, text, newline, `*/`, no second newline added), one block comment region,
-   and the theorem above applies: adjacency holds. *)
+   (`/*`, newline, text, newline, `*/`, no second newline added; it is not raw, so nothing is
+   trimmed), one block comment region, and the theorem above applies: adjacency holds. *)
 Theorem C19_one_line_with_trailing_newline : forall t,
   contains_byte x0a t = false -> has_prefix (S "//") t = false -> has_prefix (S "/*") t = false ->
   contains (S "*/") (t ++ [x0a]) = false ->
   in_domain (t ++ [x0a]) /\
+  trim_raw_preamble (t ++ [x0a]) = t ++ [x0a] /\
   comment_text (t ++ [x0a]) = S "/*" ++ [x0a] ++ t ++ [x0a] ++ S "*/" /\
   preamble_kind (t ++ [x0a]) = KBlock.
 Proof. exact one_line_trailing_newline_in_domain. Qed.
 
-(* What is excluded, each with the reason (refutations of the statement outside the domain):
-   a raw `//` form ENDING in a newline leaves an empty line before the import (two newlines in
-   the code region): the comment is detached and cgo ignores it; *)
-Theorem C19_raw_trailing_newline_detached_refuted :
+(* A raw `//` form ENDING in a newline: in the domain, written without the newline, adjacent
+   to the import (ONE newline in the code region before `import`).
+   Before the trailing newlines of raw blocks were removed in renderImports, this text was
+   outside the domain and the code produced the detached form
+     [(KLine, "//#include <a.h>"); (KCode, [x0a; x0a] ++ "import "); (KStr, "C")]:
+   an empty line before the import, so that the comment was not its doc comment and cgo
+   ignored it (formerly stated here as C19_raw_trailing_newline_detached_refuted). *)
+Example C19_raw_trailing_newline_fixed :
   let t := S "//#include <a.h>" ++ [x0a] in
-  ~ preamble_domain t /\
+  preamble_domain t /\
+  trim_raw_preamble t = S "//#include <a.h>" /\
   lex_run MCode [] (preamble_block [t])
-  = ([(KLine, S "//#include <a.h>"); (KCode, [x0a; x0a] ++ S "import "); (KStr, [c_dq] ++ S "C" ++ [c_dq])],
+  = ([(KLine, S "//#include <a.h>"); (KCode, [x0a] ++ S "import "); (KStr, [c_dq] ++ S "C" ++ [c_dq])],
      MCode, [x0a; x0a]).
-Proof. exact raw_trailing_newline_detached. Qed.
+Proof.
+  cbv zeta. split; [|split; vm_compute; reflexivity].
+  right. left. exists (S "//#include <a.h>"), 1%nat. split; [reflexivity|].
+  exists (S "#include <a.h>"). split; reflexivity.
+Qed.
 
-(* a raw `//` form with an inner newline puts its second line into code; *)
+(* What stays excluded, each with the reason (refutations of the statement outside the
+   domain): a raw `//` form with an INNER newline puts its second line into code; *)
 Theorem C19_raw_inner_newline_refuted :
   let t := S "//a" ++ [x0a] ++ S "b" in
   ~ preamble_domain t /\
@@ -57,7 +125,7 @@ Theorem C19_raw_inner_newline_refuted :
      MCode, [x0a; x0a]).
 Proof. exact raw_inner_newline_leaks. Qed.
 
-(* a text containing `*/` ends its block comment early. *)
+(* a text containing `*/` ends its block comment early, in block style ... *)
 Theorem C19_inner_terminator_refuted :
   let t := S "a*/b" ++ [x0a] ++ S "c" in
   ~ preamble_domain t /\
@@ -66,26 +134,62 @@ Theorem C19_inner_terminator_refuted :
       (KStr, [c_dq] ++ S "C" ++ [c_dq])], MCode, [x0a; x0a]).
 Proof. exact inner_terminator_leaks. Qed.
 
-(* Non-vacuity: the three styles at once. *)
+(* ... and in raw block form. *)
+Theorem C19_raw_inner_terminator_refuted :
+  let t := S "/* a */ b */" in
+  ~ preamble_domain t /\
+  lex_run MCode [] (preamble_block [t])
+  = ([(KBlock, S "/* a */"); (KCode, S " b */" ++ [x0a] ++ S "import "); (KStr, [c_dq] ++ S "C" ++ [c_dq])],
+     MCode, [x0a; x0a]).
+Proof. exact raw_inner_terminator_leaks. Qed.
+
+(* Non-vacuity: the three styles at once, raw texts with and without trailing newlines. *)
 Example C19_lex_example :
-  let cgo := [S "#include <a.h>"; S "int f();" ++ [x0a]; S "//go:build x"; S "/* raw */"] in
+  let cgo := [S "#include <a.h>"; S "int f();" ++ [x0a]; S "//go:build x"; S "/* raw */";
+              S "//#include <b.h>" ++ [x0a; x0a]; S "/* c */" ++ [x0a]] in
   Forall preamble_domain cgo /\
   fst (fst (lex_run MCode [] (preamble_block cgo))) =
   [(KLine, S "// #include <a.h>"); (KCode, [x0a]);
    (KBlock, S "/*" ++ [x0a] ++ S "int f();" ++ [x0a] ++ S "*/"); (KCode, [x0a]);
    (KLine, S "//go:build x"); (KCode, [x0a]);
-   (KBlock, S "/* raw */"); (KCode, x0a :: S "import "); (KStr, [c_dq] ++ S "C" ++ [c_dq])].
+   (KBlock, S "/* raw */"); (KCode, [x0a]);
+   (KLine, S "//#include <b.h>"); (KCode, [x0a]);
+   (KBlock, S "/* c */"); (KCode, x0a :: S "import "); (KStr, [c_dq] ++ S "C" ++ [c_dq])].
 Proof.
   split; [|vm_compute; reflexivity].
   apply Forall_cons; [left; vm_compute; repeat split; reflexivity|].
   apply Forall_cons; [left; vm_compute; repeat split; reflexivity|].
-  apply Forall_cons; [right; left; exists (S "go:build x"); split; reflexivity|].
-  apply Forall_cons; [right; right; exists (S " raw "); split; reflexivity|].
+  apply Forall_cons; [right; left; exists (S "//go:build x"), 0%nat; split; [reflexivity|];
+                      exists (S "go:build x"); split; reflexivity|].
+  apply Forall_cons; [right; right; exists (S "/* raw */"), 0%nat; split; [reflexivity|];
+                      exists (S " raw "); split; reflexivity|].
+  apply Forall_cons; [right; left; exists (S "//#include <b.h>"), 2%nat; split; [reflexivity|];
+                      exists (S "#include <b.h>"); split; reflexivity|].
+  apply Forall_cons; [right; right; exists (S "/* c */"), 1%nat; split; [reflexivity|];
+                      exists (S " c "); split; reflexivity|].
   apply Forall_nil.
 Qed.
 
+(* Non-vacuity of the trimming statements. *)
+Example C19_trim_example :
+  trim_raw_preamble (S "// a" ++ [x0a; x0a]) = S "// a" /\
+  trim_raw_preamble (S "/* a" ++ [x0a] ++ S "*/" ++ [x0a]) = S "/* a" ++ [x0a] ++ S "*/" /\
+  trim_raw_preamble (S "int f();" ++ [x0a; x0a]) = S "int f();" ++ [x0a; x0a] /\
+  trim_raw_preamble (S "//" ++ [x0a]) = S "//" /\
+  trim_raw_preamble [x0a] = [x0a].
+Proof. vm_compute. repeat split; reflexivity. Qed.
+
+Print Assumptions C19_trim_idempotent.
+Print Assumptions C19_trim_raw_no_trailing_newline.
+Print Assumptions C19_trim_identity.
+Print Assumptions C19_trim_removes_newlines_only.
+Print Assumptions C19_trim_is_TrimRight.
+Print Assumptions C19_trim_keeps_form.
 Print Assumptions C19_preamble_is_doc.
+Print Assumptions C19_raw_line_written.
+Print Assumptions C19_raw_block_written.
 Print Assumptions C19_one_line_with_trailing_newline.
-Print Assumptions C19_raw_trailing_newline_detached_refuted.
+Print Assumptions C19_raw_trailing_newline_fixed.
 Print Assumptions C19_raw_inner_newline_refuted.
 Print Assumptions C19_inner_terminator_refuted.
+Print Assumptions C19_raw_inner_terminator_refuted.
